@@ -298,6 +298,15 @@ def c12(run):
 
 def c13(run):
     _streams(run)
+    # member streams of one archive object, copies of them and archive calls, interleaved (VOL and CLM)
+    for sizes in (("SizesA", "SizesB") if run.thorough else ("SizesA",)):
+        g = vlib.generate("ArchiveStreams", {"MaxStreams": 3, "Depth": 4}, invariants=("PosInBounds", "Export"), properties=("Independence", "CallsDisturbNothing"),
+                          workers=8, subst={"Sizes": sizes})
+        run.add_model(g)
+        run.sample(g["records"][len(g["records"]) // 2]["steps"][0]["ops"])
+        r = vlib.run_scenarios(run.harness("scen"), g["file"], run.pid)
+        run.traces += r["scenarios"]; run.steps += r["steps"]; run.add_mismatches(r["mismatches"])
+        run.part(f"ArchiveStreams {sizes} (member streams x copies x archive calls, VOL and CLM)", behaviours=g["n"], tlc_states=g["states"], replayed=r["scenarios"])
 
 
 def c14(run):
